@@ -17,6 +17,7 @@
 //   12 bloom: number of server ids in the filter . seed
 //   13 keyset: id_offset.primary.nkeys
 //   14 message spec (see build_message)
+//   15 (optional) a third buffer length -> r3=
 // output tokens:
 //   msg=<hex>  st=<prec>/<rd short>/<rdisp short>/<rd time32>/<rdisp time32>  bf=<hex|->
 //   p=<ERR | OK:dump | DE:dump>   r1=<result, request-sized buffer>  r2=<result, 1024-byte buffer>
@@ -442,7 +443,11 @@ fn p2b_case(t: &[&str]) -> String {
         }
     });
 
-    for (tag, size) in [("r1", msg.len()), ("r2", 1024usize)] {
+    let mut sizes = vec![("r1", msg.len()), ("r2", 1024usize)];
+    if t.len() > 15 {
+        sizes.push(("r3", t[15].parse().unwrap()));
+    }
+    for (tag, size) in sizes {
         let mut buffer = vec![0xEEu8; size];
         if op == "H" {
             let config = ServerConfig {
